@@ -194,6 +194,46 @@ func rulesTraverseStep(c *Ctx, r *Report) {
 			pre = &ys[i]
 		}
 	}
+	// the order selected by an enumeration value: PreOrder and PostOrder pass two different constants, the yields are
+	// guarded by a comparison of the parameter with them
+	if len(outer.Params) == 2 {
+		if bt, ok := outer.Params[1].Type().Underlying().(*types.Basic); ok && bt.Info()&types.IsInteger != 0 {
+			pre, post = nil, nil
+			kOf := func(name string) (int64, bool) {
+				e := c.fn("formats/newick", name)
+				if e == nil {
+					return 0, false
+				}
+				calls := staticCallsTo(e, outer)
+				if len(calls) != 1 {
+					return 0, false
+				}
+				return cInt(constVal(calls[0].Call.Args[1]))
+			}
+			kPre, ok1 := kOf("(*Node).PreOrder")
+			kPost, ok2 := kOf("(*Node).PostOrder")
+			if ok1 && ok2 && kPre != kPost {
+				isPre, notPre, isPost := fmt.Sprintf("(%d == ^P1)", kPre), fmt.Sprintf("!(%d == ^P1)", kPre), fmt.Sprintf("(%d == ^P1)", kPost)
+				for i := range ys {
+					parts := strings.Split(ys[i].guard, " && ")
+					has := func(lit string) bool {
+						for _, p := range parts {
+							if p == lit {
+								return true
+							}
+						}
+						return false
+					}
+					switch {
+					case has(isPre) && !has(isPost):
+						pre = &ys[i]
+					case (has(isPost) || has(notPre)) && !has(isPre):
+						post = &ys[i]
+					}
+				}
+			}
+		}
+	}
 	if pre == nil || post == nil {
 		r.undecided("STEP", where, "yield guards", c.pos(f.Pos()), "could not tell the pre-order from the post-order yield by their guards: "+ys[0].guard+" / "+ys[1].guard)
 		return
@@ -207,6 +247,10 @@ func rulesTraverseStep(c *Ctx, r *Report) {
 	okPre := strings.Contains(pre.guard, "(0 == "+idx+")")
 	okPost := false
 	for _, part := range strings.Split(post.guard, " && ") {
+		// `!(a != b)` is `a == b`: the test written the other way round, with the arms swapped
+		if strings.HasPrefix(part, "!(") && strings.Contains(part, " != ") && !strings.Contains(part, " == ") {
+			part = strings.Replace(strings.TrimPrefix(part, "!"), " != ", " == ", 1)
+		}
 		if strings.HasPrefix(part, "(") && strings.Contains(part, " == ") && strings.Contains(part, idx) && strings.Contains(part, "builtin:len(load(load(") && !strings.HasPrefix(part, "!") {
 			okPost = true
 		}
